@@ -345,8 +345,8 @@ def run(ctx):
     from harness.core import MachineryError
     th = not ctx.quick
     ctx.mc("PoliciesMC", ctx.pick("PoliciesMC.cfg", "PoliciesMC.thorough.cfg"), label="all factories, all operations")
-    ctx.mc("PoliciesMC", ctx.pick("PoliciesMC.rd.cfg", "PoliciesMC.rd.thorough.cfg"), label="ThrottlingFactory reads, two sessions")
-    ctx.mc("PoliciesMC", ctx.pick("PoliciesMC.wr.cfg", "PoliciesMC.wr.thorough.cfg"), label="ThrottlingFactory writes and producers")
+    ctx.mc("PoliciesMC", ctx.pick("PoliciesMC.rd.cfg", "PoliciesMC.rd.thorough.cfg"), coverage=False, label="ThrottlingFactory reads, two sessions")
+    ctx.mc("PoliciesMC", ctx.pick("PoliciesMC.wr.cfg", "PoliciesMC.wr.thorough.cfg"), coverage=False, label="ThrottlingFactory writes and producers")
     ctx.require_actions("PoliciesMC", ["MBuild", "MConnect", "MData", "MWrite", "MWseq", "MLose", "MRegProd", "MUnregProd",
                                        "MLost", "MAdv", "MFire"])
     for cfgfile, what in [("PoliciesMC.reach.cfg", "cancel blows up then a second chain of checks starts (ODDITY 3)")] + \
@@ -361,7 +361,7 @@ def run(ctx):
         ctx.log("exhaustive: %s alphabet %d -> %d distinct histories" % (cfg, len(alphabet), len(got)))
         traces.extend(got)
     nshort = len(traces)
-    for _ in range(ctx.pick(1200, 25000)):
+    for _ in range(ctx.pick(800, 25000)):
         traces.append(run_history(random_cfg(ctx.rng), random_ops(ctx.rng, ctx.rng.randint(6, 40))))
     ctx.note_traces(traces)
     ctx.extra["exhaustive_short_histories"] = nshort
